@@ -1918,6 +1918,15 @@ fn compare_greater_byte_array_decimals(a: &[u8], b: &[u8]) -> bool {
             let a_longer: bool = a_length > b_length;
             return if negative_values { !a_longer } else { a_longer };
         }
+
+        // The leading bytes of the longer value are pure sign extension: drop them so that
+        // both values are aligned. The shorter value has the same sign, so an unsigned
+        // lexicographical comparison of the aligned bytes orders the two numbers.
+        return if a_length > b_length {
+            a[a_length - b_length..] > *b
+        } else {
+            *a > b[b_length - a_length..]
+        };
     }
 
     (a[1..]) > (b[1..])
